@@ -383,6 +383,17 @@ class TaskDispatcher(object):
         correlation_id = message.correlation_id
 
         """
+        A response without a (string) correlation_id cannot belong to any
+        request, so log it, acknowledge it and drop it.
+        """
+        if not isinstance(correlation_id, str):
+            self.logger.error(
+                "Response {} has no correlation_id - dropping the message!".format(message)
+            )
+            message.acknowledge(multiple=False)
+            return
+
+        """
         Process the correlation_id to check if it had a ".invoke" or
         ".waitForTaskToken" suffix appended when it was stored. These are
         used to disambiguate, as the Task response handling for functions
